@@ -602,6 +602,13 @@ func (v *SpecView) EquivalentExpr(got []string, expected string) (bool, string, 
 		if g.String() == want.String() {
 			return true, "", nil
 		}
+		// operands of commutative operators in lexical order (`(n - 1) + r` is `r + (n - 1)`)
+		wrap := func(ts []string) string {
+			return strings.Join(CommutativeNorm(append(append([]string{"("}, ts...), ")")), " ")
+		}
+		if wrap(got) == wrap(toks) {
+			return true, "", nil
+		}
 		return false, fmt.Sprintf("the specification has %s, the table %s", g.String(), want.String()), nil
 	}
 	// two expressions: every atom of either side is part of the comparison (nothing is context)
